@@ -55,7 +55,7 @@ theorem resume_served_or_claimed_without_eviction (cfg : Cfg) (hst : cfg.hasStor
     e.kind = .sse ∨ e.kind = .status 409 := by
   have hp := purged_zero_run ls (init cfg : Conn α) hne (fun _ => by simp [init]) t
   have hcfg : (run (init cfg : Conn α) ls).cfg.hasStore = true := by rw [run_cfg]; exact hst
-  have h400 := resume_of_known_stream_not_refused (run (init cfg : Conn α) ls) t i ver budget hcfg hopen hk hp e he
+  have h400 := resume_of_known_stream_not_refused (run (init cfg : Conn α) ls) t i ver budget hcfg hopen hk (by omega) e he
   rcases get_kind_cases _ _ _ _ e he with h | h | h
   · exact absurd h h400
   · exact Or.inr h
